@@ -3,6 +3,7 @@ package engine
 import (
 	"bytes"
 	"fmt"
+	"sort"
 	"strings"
 	"time"
 
@@ -305,7 +306,7 @@ func runC20(r *simkit.R) {
 		},
 	})
 	if res == "hang" || res == "steps" {
-		r.Failf("hang", "engine operations did not finish ("+res+")", "operations did not finish (%s)", res)
+		w.failHang(res)
 	}
 	if res != "" {
 		return
@@ -364,4 +365,275 @@ func dumpLin(lin []simkit.LinOp, key string) string {
 		}
 	}
 	return b.String()
+}
+
+// ---------------------------------------------------------------------------------------
+// C08: an object locked through the engine stays retrievable until the lock expires
+
+func propC08() *simkit.Property {
+	return &simkit.Property{
+		ID: "C08", Level: "exploration", Bubble: true, TapeLimit: 4000,
+		Rule: "each run = an engine with 2-3 shards (error threshold 0-3) and a history of <=16 operations by 1-3 concurrent tasks: engine Put of regular objects, LOCK objects (expiring at epoch 2-5) and TOMBSTONE objects aimed at them (both broadcast shard by shard in a drawn shard order), Get, per-shard mode switches (read-only, degraded-read-only, read-write), evacuation of the currently read-only shards, epoch advances (expiry handling, lock clean-up) and simulated-clock advances (GC passes); every engine->shard call is a scheduling point and Put visits may be failed by the simulator (before or after taking effect).  Oracle: once Put of a lock returned nil for an object whose own Put had been acknowledged (and no tombstone of it had been acknowledged by then), every Get of that object invoked afterwards and returning while the epoch is not past the lock's expiration must return the stored bytes; the same is checked for all such objects at the end of the run after GC has settled.  distinct = trace digest; non-trivial = >=1 protected read judged after a tombstone attempt, mode switch, injected failure, evacuation or epoch advance",
+		Run:  runC08,
+		Assumptions: []string{"write-cache disabled", "only Put visits are failed (the property's history injects put failures); reads are never failed, so a failed Get is never excused"},
+		Components:  engineComponents,
+		DeadlockClass: "hang",
+	}
+}
+
+func runC08(r *simkit.R) {
+	cfg := drawEnCfg(r, 2, 3)
+	nreg := 2 + r.Intn(2)
+	ntomb, nlock := 2, 2
+	w := newEnWorld(r, cfg, nreg+ntomb+nlock)
+	w.layout(nreg, ntomb, nlock, false)
+	w.start()
+	r.Logf("config %s", cfg)
+	for id := 0; id < nreg+ntomb+nlock; id++ {
+		r.Logf("  spec %s", w.u.Specs[id])
+	}
+	faultPct := []int{0, 0, 8, 20}[r.Intn(4)]
+	nops := 4 + r.Intn(13)
+	var ops []*enOp
+	for i := 0; i < nops; i++ {
+		var op *enOp
+		switch r.Weighted(22, 14, 14, 24, 12, 8, 4, 2) {
+		case 0:
+			op = &enOp{kind: "put", id: r.Intn(nreg)}
+		case 1:
+			op = &enOp{kind: "lock", id: nreg + ntomb + r.Intn(nlock)}
+		case 2:
+			op = &enOp{kind: "tomb", id: nreg + r.Intn(ntomb)}
+		case 3:
+			op = &enOp{kind: "get", id: r.Intn(nreg)}
+		case 4:
+			op = &enOp{kind: "mode", sh: r.Intn(cfg.nshards), m: []mode.Mode{mode.ReadWrite, mode.ReadOnly, mode.DegradedReadOnly, mode.ReadWrite}[r.Intn(4)], flag: r.Bool(50)}
+		case 5:
+			op = &enOp{kind: "epoch"}
+		case 6:
+			op = &enOp{kind: "evacuate"}
+		case 7:
+			op = &enOp{kind: "islocked", id: r.Intn(nreg)}
+		}
+		ops = append(ops, op)
+	}
+
+	byTask := map[*simkit.Task]*enOp{}
+	putAcked := map[int]uint64{}  // object -> return stamp of its first acknowledged put
+	tombAcked := map[int]bool{}   // object -> some tombstone of it was acknowledged
+	armed := map[int]uint64{}     // object -> stamp from which reads must succeed
+	armedBy := map[int]int{}      // object -> lock spec id
+	partial := map[int]bool{}     // object -> its lock did not reach every shard holding it
+	rolledBack := map[int]bool{}  // object -> a tombstone of it was deleted again by a broadcast rollback
+	disturbed := false
+	next := 0
+	// the protecting lock has not expired
+	live := func(x int) bool {
+		l, ok := armedBy[x]
+		return ok && w.ep.CurrentEpoch() <= uint64(w.u.Specs[l].Exp)
+	}
+	var history []string
+	judge := func(x int, call uint64, err error, val []byte, where string) {
+		from, ok := armed[x]
+		if !ok || call < from || !live(x) {
+			return
+		}
+		if disturbed {
+			r.Nontrivial()
+		}
+		if err == nil && bytes.Equal(val, w.bin(x)) {
+			return
+		}
+		what := "Get fails"
+		switch {
+		case err == nil:
+			what = "Get returns other bytes"
+		case isRemoved(err):
+			what = "Get reports it as already removed"
+		case isGone(err):
+			what = "Get reports it as not found"
+		}
+		diag := w.diagnoseC08(x, armedBy[x], history)
+		if rolledBack[x] {
+			diag = "a tombstone of it had been stored on a shard and then rolled back by the failed broadcast"
+		}
+		if partial[x] {
+			diag = "the lock was acknowledged although a shard holding the object did not store it"
+		}
+		r.Failf("lock", fmt.Sprintf("locked object is not retrievable: %s [%s]", what, diag), "o%d is protected by lock o%d (accepted by the engine, expires after epoch %d, current epoch %d) but at %s %s: %v", x, armedBy[x], w.u.Specs[armedBy[x]].Exp, w.ep.CurrentEpoch(), where, what, err)
+	}
+	res := w.sched(enHooks{
+		maxConc: 1 + r.Intn(3),
+		next: func() (string, func(*simkit.Task)) {
+			if next >= len(ops) {
+				return "", nil
+			}
+			op := ops[next]
+			next++
+			if op.kind == "evacuate" {
+				for i := range w.shards {
+					if w.modeOf(i).ReadOnly() {
+						op.srcs = append(op.srcs, i)
+					}
+				}
+				if len(op.srcs) == 0 || len(op.srcs) == len(w.shards) {
+					op.kind = "get"
+					op.id = r.Intn(nreg)
+				}
+			}
+			return op.kind, func(t *simkit.Task) { byTask[t] = op; w.exec(op) }
+		},
+		boundary: func(key string) {
+			// Shard.Delete of a tombstone object = rollback of a failed tombstone broadcast
+			f := strings.Split(key, ":")
+			if f[1] != "delete" {
+				return
+			}
+			for ts := nreg; ts < nreg+ntomb; ts++ {
+				if strings.Contains(f[2], short(w.addr(ts).Object())) {
+					rolledBack[w.u.Specs[ts].Target] = true
+					r.Probe("tombstone broadcast rolled back on a shard")
+				}
+			}
+		},
+		verdict: func(key string) int {
+			f := strings.Split(key, ":")
+			if f[1] != "put" || faultPct == 0 || !r.Bool(faultPct) {
+				return vOK
+			}
+			disturbed = true
+			if r.Bool(40) {
+				r.Fired("shard put fails after taking effect")
+				history = append(history, "putfault-after")
+				return vAfterErr
+			}
+			r.Fired("shard put fails")
+			history = append(history, "putfault")
+			return vErr
+		},
+		done: func(t *simkit.Task) {
+			op := byTask[t]
+			if op == nil {
+				return
+			}
+			r.Op("%s -> %v", op, errS(op.err))
+			switch op.kind {
+			case "put":
+				if op.err == nil {
+					if _, ok := putAcked[op.id]; !ok {
+						putAcked[op.id] = t.Ret
+					}
+				}
+			case "tomb":
+				disturbed = true
+				x := w.u.Specs[op.id].Target
+				if op.err == nil {
+					tombAcked[x] = true
+					history = append(history, fmt.Sprintf("tomb-ok(o%d)", x))
+				} else {
+					history = append(history, fmt.Sprintf("tomb-fail(o%d)", x))
+				}
+			case "lock":
+				x := w.u.Specs[op.id].Target
+				if op.err != nil {
+					break
+				}
+				pa, stored := putAcked[x]
+				if !stored || pa > t.Call || tombAcked[x] {
+					break
+				}
+				if _, ok := armed[x]; !ok {
+					armed[x] = t.Ret
+					armedBy[x] = op.id
+					// did every shard that holds the object store the lock?
+					for _, s := range w.shards {
+						hasX, _ := s.fst.Exists(w.addr(x))
+						hasL, _ := s.fst.Exists(w.addr(op.id))
+						if hasX && !hasL {
+							partial[x] = true
+							r.Probe("lock acknowledged although a shard holding the object did not store it")
+						}
+					}
+					history = append(history, fmt.Sprintf("lock-ok(o%d)", x))
+					r.Probe("lock accepted for a stored object")
+				} else if w.u.Specs[op.id].Exp > w.u.Specs[armedBy[x]].Exp {
+					armedBy[x] = op.id
+				}
+			case "mode":
+				if op.err == nil {
+					disturbed = true
+					r.Fired("shard mode switch to " + op.m.String())
+					history = append(history, "mode")
+				}
+			case "epoch":
+				disturbed = true
+				r.Fired("epoch advance")
+				history = append(history, "epoch")
+			case "evacuate":
+				disturbed = true
+				r.Fired("evacuation")
+				history = append(history, "evacuate")
+				r.Logf("    evacuated %d", op.n)
+			case "get":
+				judge(op.id, t.Call, op.err, op.val, "a Get of the history")
+			}
+		},
+	})
+	if res == "hang" || res == "steps" {
+		w.failHang(res)
+	}
+	if res != "" {
+		return
+	}
+	// GC settles; protected objects must still be there
+	w.settle(25 * time.Second)
+	for x := range armed {
+		x := x
+		var o *enOp
+		w.exclusive("final-get", func() {
+			o = &enOp{kind: "get", id: x}
+			w.exec(o)
+		})
+		r.Logf("final get(o%d) -> %v", x, errS(o.err))
+		judge(x, ^uint64(0), o.err, o.val, "the end of the run (after GC settled)")
+	}
+}
+
+// diagnoseC08 names the circumstances of a failed protected read (kept coarse on purpose:
+// it only separates mechanisms, never excuses a failure).
+func (w *enWorld) diagnoseC08(x, lock int, history []string) string {
+	var holders, lockHolders []string
+	for _, s := range w.shards {
+		if ok, _ := s.fst.Exists(w.addr(x)); ok {
+			holders = append(holders, fmt.Sprintf("%s", s.sh.GetMode()))
+		}
+		if ok, _ := s.fst.Exists(w.addr(lock)); ok {
+			lockHolders = append(lockHolders, "x")
+		}
+	}
+	d := fmt.Sprintf("object on %d of %d shards, lock object on %d", len(holders), len(w.shards), len(lockHolders))
+	seen := map[string]bool{}
+	var ev []string
+	after := false
+	for _, h := range history {
+		if strings.HasPrefix(h, fmt.Sprintf("lock-ok(o%d)", x)) {
+			after = true
+		}
+		k := h
+		if i := strings.IndexByte(h, '('); i >= 0 {
+			if !strings.HasSuffix(h, fmt.Sprintf("(o%d)", x)) {
+				continue
+			}
+			k = h[:i]
+		}
+		if !after && k != "mode" && k != "putfault" && k != "putfault-after" {
+			continue
+		}
+		if !seen[k] {
+			seen[k] = true
+			ev = append(ev, k)
+		}
+	}
+	sort.Strings(ev)
+	return d + "; events: " + strings.Join(ev, ",")
 }
